@@ -135,17 +135,13 @@ theorem wf_ite_args {args : List Term} {p : Payload} (h : (Term.node .ite args p
 
 theorem wf_quant_args {op : Op} (hop : op = .forall_ ∨ op = .exists_) {args : List Term} {p : Payload}
     (h : (Term.node op args p).wf = true) : ∃ b vs, args = [b] ∧ p = .qvars vs := by
-  have := (Term.wf_node.mp h).2.1
+  have hs := (Term.wf_node.mp h).2.1
+  obtain ⟨b, rfl⟩ := Term.wt_quant_args (Term.wf_wt _ h) (by rcases hop with rfl | rfl <;> rfl)
   rcases hop with rfl | rfl
   all_goals
-    cases p <;> simp only [Op.shapeOK, beq_iff_eq] at this <;> try (cases this; done)
-    match args, this with
-    | [b], _ => exact ⟨b, _, rfl, rfl⟩
-
-theorem typeOfNode_ite (p : Payload) (c a b : Option Ty) (τ : Ty)
-    (h : typeOfNode .ite p [c, a, b] = some τ) : c = some .bool ∧ a = some τ ∧ b = some τ := by
-  unfold typeOfNode at h
-  split at h <;> simp_all
+    cases p with
+    | qvars vs => exact ⟨b, vs, rfl, rfl⟩
+    | _ => exact Bool.noConfusion hs
 
 theorem wb_ite (c a b : Term) (p : Payload) :
     WB (.node .ite [c, a, b] p) ↔ WB c ∧ WB a ∧ WB b := by
@@ -153,7 +149,8 @@ theorem wb_ite (c a b : Term) (p : Payload) :
   rw [Term.wf_node, typeOf_node]
   constructor
   · rintro ⟨⟨hch, _, _⟩, hty⟩
-    have := typeOfNode_ite p _ _ _ _ hty
+    have := PySMT.typeOfNode_ite hty
+    simp only [List.map_cons, List.map_nil, List.cons.injEq, and_true] at this
     exact ⟨⟨hch c (by simp), this.1⟩, ⟨hch a (by simp), this.2.1⟩, ⟨hch b (by simp), this.2.2⟩⟩
   · rintro ⟨hc, ha, hb⟩
     have hty : typeOfNode .ite p ([c, a, b].map Term.typeOf) = some .bool := by
@@ -162,7 +159,9 @@ theorem wb_ite (c a b : Term) (p : Payload) :
     intro x hx
     simp only [List.mem_cons, List.not_mem_nil, or_false] at hx
     rcases hx with rfl | rfl | rfl
-    exacts [hc.1, ha.1, hb.1]
+    · exact hc.1
+    · exact ha.1
+    · exact hb.1
 
 theorem wb_forall (b : Term) (vs : List Sym) : WB (.node .forall_ [b] (.qvars vs)) ↔ WB b := by
   unfold WB
@@ -190,8 +189,8 @@ theorem wb_exists (b : Term) (vs : List Sym) : WB (.node .exists_ [b] (.qvars vs
       simp only [List.map_cons, List.map_nil, h2]; rfl
     exact ⟨⟨by simpa using h1, rfl, by rw [hty]; rfl⟩, hty⟩
 
-theorem wb_tt : WB Term.tt := ⟨by decide, by decide⟩
-theorem wb_ff : WB Term.ff := ⟨by decide, by decide⟩
+theorem wb_tt : WB Term.tt := ⟨Term.wf_node.mpr ⟨by simp, rfl, rfl⟩, by rw [Term.tt, typeOf_node]; rfl⟩
+theorem wb_ff : WB Term.ff := ⟨Term.wf_node.mpr ⟨by simp, rfl, rfl⟩, by rw [Term.ff, typeOf_node]; rfl⟩
 
 /-! ## values of the Boolean connectives -/
 
